@@ -257,9 +257,13 @@ AllDescs == {d \in UNION {Descs(b) : b \in 1 .. NB} : ValidDesc(d)}
 
 -----------------------------------------------------------------------------
 VARIABLE st
-Init == st \in {Desc(b, "base", 1, 0) : b \in 1 .. NB}
-Next == /\ st.kind = "base" /\ st.i = 1
-        /\ st' \in {d \in Descs(st.b) : ValidDesc(d)} \ {st}
+\* a trivial initial state: all evaluation happens in the worker threads (TLC's main thread has a small stack)
+Start == Desc(0, "start", 0, 0)
+Init == st = Start
+Next == \/ /\ st = Start
+           /\ st' \in {Desc(b, "base", 1, 0) : b \in 1 .. NB}
+        \/ /\ st.kind = "base" /\ st.i = 1
+           /\ st' \in {d \in Descs(st.b) : ValidDesc(d)} \ {st}
 Spec == Init /\ [][Next]_st
 
 (* --- the theorems --- *)
@@ -277,6 +281,7 @@ AstOf(d)  == IF OwnDeco(d) THEN Ast(Bases[d.b].B, DecoOf(d)) ELSE BaseAst[d.b]
 \* the layout is one the grammar admits; stripping the layout entries of the rendering gives the
 \* lexical tokens, i.e. the tokens of the compact rendering
 Inv_Layout ==
+  st # Start =>
   LET toks == ToksOf(st)
       ws == LayoutOf(st, toks)
       r == Render(toks, ws) IN
@@ -287,7 +292,7 @@ Inv_Layout ==
 \* the decoration is one the grammar admits; the ideal formatter preserves the AST, yields a
 \* well-formed schema, and is idempotent (checked once per distinct decoration)
 Inv_Norm ==
-  (st.kind \in {"pre1", "rand"} \/ (st.kind = "base" /\ st.i = 1)) =>
+  (st # Start /\ (st.kind \in {"pre1", "rand"} \/ (st.kind = "base" /\ st.i = 1))) =>
   LET B == Bases[st.b].B
       deco == DecoOf(st)
       B2 == NormB(B, deco)
